@@ -4,6 +4,7 @@ CONSTANTS
   Mode = "single"
   Sample = FALSE
   Runs = 1
+  ViewRoots = FALSE
 SPECIFICATION MacroSpec
 INVARIANT C01Single
 CHECK_DEADLOCK FALSE
